@@ -286,7 +286,7 @@ W2 == [on |-> TRUE, t |-> <<"v">>, pl |-> "w2", q |-> 1, r |-> TRUE]
 W3 == [on |-> TRUE, t |-> <<"w">>, pl |-> "", q |-> 2, r |-> FALSE]
 W4 == [on |-> TRUE, t |-> <<"w">>, pl |-> "", q |-> 0, r |-> TRUE]      \* retained will with an empty payload: clears, and is still published
 W5 == [on |-> TRUE, t |-> <<"w">>, pl |-> "MID", q |-> 1, r |-> FALSE]   \* 12,000 bytes: more than a ring minus a read block, less than a ring
-W6 == [on |-> TRUE, t |-> <<"w">>, pl |-> "L125", q |-> 0, r |-> TRUE]   \* 125 bytes: the will's PUBLISH - always encoded from its fields - has a remaining length of exactly 128
+W6 == [on |-> TRUE, t |-> <<"w">>, pl |-> "T125", q |-> 0, r |-> TRUE]   \* 125 bytes: the will's PUBLISH - always encoded from its fields - has a remaining length of exactly 128
 Wills == {NoWill, W1, W2, W3, W4, W5}     \* (W6 is used in WillEofSpec)
 WillInit == Witness(WNames, c2, k2, {<<"#">>}, 2)
 WillNext == steps < MaxSteps /\
